@@ -176,6 +176,12 @@ def _compare_generic_type_args(
     """Compare the arguments of generic types for compatibility."""
     if not required_args or not incoming_args:
         return True
+    incoming_variadic = len(incoming_args) == 2 and incoming_args[1] is Ellipsis
+    if len(required_args) == 2 and required_args[1] is Ellipsis:  # tuple[T, ...] accepts any arity
+        items = incoming_args[:1] if incoming_variadic else incoming_args
+        return all(is_type_compatible(t, required_args[0], memo) for t in items)
+    if incoming_variadic or len(incoming_args) != len(required_args):
+        return False
     return all(is_type_compatible(t1, t2, memo) for t1, t2 in zip(incoming_args, required_args))
 
 
